@@ -11,25 +11,39 @@ for d in sorted(glob.glob('seeded/C*_m*')):
     patch = os.path.abspath(f'{d}/patch.diff')
     r = subprocess.run(['git', '-C', '/repo', 'apply', patch], capture_output=True, text=True)
     if r.returncode != 0:
-        rows.append((meta['id'], pid, 'PATCH DOES NOT APPLY', []))
+        rows.append((meta['id'], pid, 'PATCH DOES NOT APPLY', [], meta.get('blind', {}).get('verdict', 'n/a')))
         continue
+    det = []
+    rules = []
+    verdict = 'missed'
     try:
-        out = subprocess.run(['./check', pid], capture_output=True, text=True)
-        keys = re.findall(r'^  violation (\S+\|[^\n]*)', out.stdout, re.M)
-        rules = sorted({k.split('|')[1] for k in keys})
-        verdict = 'DETECTED' if out.returncode == 1 and keys else ('missed' if out.returncode == 0 else f'error rc={out.returncode}')
+        for chk in meta.get('checks', [pid]):
+            out = subprocess.run(['./check', chk], capture_output=True, text=True)
+            keys = re.findall(r'^  violation (\S+\|[^\n]*)', out.stdout, re.M)
+            rl = sorted({k.split('|')[1] for k in keys})
+            if out.returncode == 1 and keys:
+                verdict = 'DETECTED'
+                det.append({'check': chk, 'rules': rl, 'keys': keys[:6]})
+                rules += [(chk + ':' if chk != pid else '') + r for r in rl]
+            elif out.returncode not in (0, 1):
+                verdict = f'error rc={out.returncode}'
     finally:
         subprocess.run(['git', '-C', '/repo', 'checkout', '--', '.'])
-    meta['detected_by'] = [{'check': pid, 'rules': rules, 'keys': keys[:6]}] if keys else []
+    meta['detected_by'] = det
     json.dump(meta, open(f'{d}/meta.json', 'w'), indent=1)
-    rows.append((meta['id'], pid, verdict, rules))
-    print(meta['id'], verdict, rules, flush=True)
+    blind = meta.get('blind', {}).get('verdict', 'n/a (round 1)')
+    rows.append((meta['id'], pid, verdict, rules, blind))
+    print(meta['id'], verdict, rules, 'blind:', blind, flush=True)
 with open('seeded/MATRIX.md', 'w') as f:
     f.write('# Seeded changes vs checks\n\nEach row: a change written by a fresh sub-agent (given only the property record), confirmed by me '
             '(existing suite passes with it, demonstration fails with it and passes without), applied to /repo, the property\'s quick check run, reverted.\n\n')
-    f.write('| seeded change | property | verdict | rules that fired |\n|---|---|---|---|\n')
-    for i, p, v, rl in rows:
-        f.write(f'| {i} | {p} | {v} | {", ".join(rl)} |\n')
-    f.write(f'\n{sum(1 for r in rows if r[2]=="DETECTED")}/{len(rows)} detected.\n')
+    f.write('`blind` = verdict of the checks as they stood BEFORE I had seen the change (round 2 onwards; round-1 changes were partly known while the checks were written, see DESIGN.md section 5).\n\n')
+    f.write('| seeded change | property | verdict now | rules that fire now | blind verdict |\n|---|---|---|---|---|\n')
+    for i, p, v, rl, bl in rows:
+        f.write(f'| {i} | {p} | {v} | {", ".join(rl)} | {bl} |\n')
+    f.write(f'\n{sum(1 for r in rows if r[2]=="DETECTED")}/{len(rows)} detected now.\n')
+    r2 = [r for r in rows if not r[4].startswith('n/a')]
+    if r2:
+        f.write(f'Blind (round 2+): {sum(1 for r in r2 if r[4].startswith("detected"))}/{len(r2)} detected before any strengthening.\n')
 # final sanity: tree clean, checks quiet again
 print(subprocess.run(['git', '-C', '/repo', 'status', '--porcelain'], capture_output=True, text=True).stdout or 'repo clean')
